@@ -9,6 +9,8 @@ case = {
             {'at': t, 'op': 'wait', 'cancel': bool} ],      any op may carry 'iters': n = n extra loop iterations before it
   'foreign': [ [ {'gap': g, 'op': 'call'|'map'|'await'|'wait', ...}, ... ], ... ],    one list per foreign thread
   'shutdown': None | t        the owner's main returns at t (asyncio.run then cancels the background task)
+  'other': None | {'at': t, 'fdur': d, 'x': v}    a second, independent buffer on the owner's loop (its own function lasting d)
+                                                  receives one plain call at t
   'sched': {...}
 }
 Values are unique ints unless deliberately duplicated.  'range' maps use xs = consecutive ints.
@@ -111,6 +113,16 @@ def run(case, max_steps=120000):
                 if not sim.aborted:
                     rec['end'] = sim.now
                     rec['end_step'] = sim.steps
+
+        other_calls = []
+
+        async def func2(xs):
+            rec = {'start': sim.now, 'args': sorted(xs), 'end': None}
+            other_calls.append(rec)
+            if case['other']['fdur']:
+                await aio.sleep(case['other']['fdur'])
+            if not sim.aborted:
+                rec['end'] = sim.now
 
         def delivered_now():
             got = set()
@@ -224,6 +236,8 @@ def run(case, max_steps=120000):
             # hand-off from a foreign thread that fails to wake the loop.
             nf = len(fails)
             quiet = (nf + 3) * (T + case['fdur']) + 4 * T + 2
+            if case.get('other'):
+                quiet += case['other']['at'] + case['other']['fdur'] + T
             fspan = max([sum(o.get('gap', 0) + o.get('delay', 0) for o in p) for p in (case.get('foreign') or ())] + [0])
             await aio.sleep(fspan + (quiet if nforeign else 0) + quiet)
             while state['foreign_done'] < nforeign:
@@ -236,6 +250,10 @@ def run(case, max_steps=120000):
             else:
                 buf = A.buffer_until_timeout(func, timeout=T)
             state['buf'] = buf
+            if case.get('other'):
+                buf2 = A.buffer_until_timeout(func2, timeout=T)
+                w.keep.append(buf2)
+                loop.call_later(case['other']['at'], buf2, case['other']['x'])
             state['ready'] = True
             t0 = loop.time()
             dt = loop.create_task(driver(buf, loop, t0))
@@ -272,7 +290,7 @@ def run(case, max_steps=120000):
                     state['foreign_done'] += 1
             return run_f
 
-        hz = 100.0 + 40 * (T + case['fdur']) + sum(o['at'] for o in case['prog']) + (case.get('shutdown') or 0) \
+        hz = 100.0 + (3 * (case['other']['at'] + case['other']['fdur']) if case.get('other') else 0) + 40 * (T + case['fdur']) + sum(o['at'] for o in case['prog']) + (case.get('shutdown') or 0) \
             + sum(o.get('gap', 0) for p in (case.get('foreign') or ()) for o in p)
 
         def watchdog():
@@ -281,7 +299,7 @@ def run(case, max_steps=120000):
         sim.spawn(watchdog, name='watchdog', daemon=True)
         fns = [owner] + [make_foreign(i, p) for i, p in enumerate(case.get('foreign') or ())]
         w.run(fns, names=['owner'] + ['F%d' % i for i in range(nforeign)])
-        hist = {'stop': classify_stop(sim), 'calls': calls, 'subs': subs, 'waits': waits,
+        hist = {'stop': classify_stop(sim), 'calls': calls, 'subs': subs, 'waits': waits, 'other_calls': other_calls,
                 'main_returned': state['main_returned'], 'owner_finished': state.get('owner_finished'),
                 'thread_excs': [(t.name, t.exc) for t in sim.threads if t.exc is not None],
                 'steps': sim.steps, 'decisions': sim.decisions, 'forced': w.chooser.forced, 'now': sim.now,
@@ -298,4 +316,5 @@ def abbreviate(hist):
                              'deliver': s['deliver']} for s in hist['subs']],
             'waits': [{k: w_[k] for k in ('thread', 'cancel', 't_call', 't_ret', 'missing', 'exc')} for w_ in hist['waits']],
             'main_returned': hist['main_returned'], 'owner_finished': hist['owner_finished'],
+            'other_buffer_calls': hist.get('other_calls') or None,
             'blocked': hist['deadlock_report'] if hist['stop'] != 'finished' else None}
